@@ -64,7 +64,7 @@ Problem(e) ==
     [] e.op = "validate" ->
          LET v == Verdict(e.env, e.schema, e.doc, e.opt)
              \* long arrays with one odd item: when the document is rejected because of that item (no count rule involved), the error is at its offset
-             located == "oddpos" \in DOMAIN e /\ e.oddpos >= 0 /\ v = "reject" /\ ~e.ok /\ e.schema.rules = <<>> IN
+             located == "oddpos" \in DOMAIN e /\ e.oddpos >= 0 /\ v = "reject" /\ ~e.ok /\ ~HasRule(e.schema, "minItems") /\ ~HasRule(e.schema, "maxItems") IN
          IF v = "unspec" \/ (e.ok <=> v = "accept") THEN (IF located /\ e.pos # e.oddpos THEN "position:" \o ToString(e.oddpos) ELSE "ok") ELSE "verdict:" \o v
     [] e.op = "lenunit" ->              \* oks[k+1] : does {minLength: k, maxLength: k} accept the string c ?  exactly at its length, in ONE unit
          LET U8(cp) == IF cp < 128 THEN 1 ELSE IF cp < 2048 THEN 2 ELSE IF cp < 65536 THEN 3 ELSE 4
